@@ -48,8 +48,8 @@ func (td TypeDeclaration) CompletionAtPos(ctx context.Context, pos hcl.Pos) []la
 
 		return allTypeDeclarationsAsCandidates(prefix, editRange)
 	case *hclsyntax.FunctionCallExpr:
-		// position in complex type name
-		if eType.NameRange.ContainsPos(pos) {
+		// position in complex type name (or right behind it, in front of the parenthesis)
+		if eType.NameRange.ContainsPos(pos) || eType.NameRange.End.Byte == pos.Byte {
 			prefixLen := pos.Byte - eType.NameRange.Start.Byte
 			prefix := eType.Name[0:prefixLen]
 
